@@ -29,9 +29,11 @@ ASSUMPTIONS = [
     'synthesised files obey the cross-lump consistency the format needs: LEAFMINDISTTOWATER has one entry per leaf; '
     'every brush model is referenced by an entity; every split face has an original face; FACES_HDR is empty or '
     'parallel to FACES; index arrays (leaf faces/brushes, brush sides, primitive verts/indices, prop leaf list) are '
-    'exactly the concatenation of the slices that use them; every texdata is used by a texinfo; edge 0 is the '
-    'unusable dummy and every other edge is used by a surfedge; the vertex table contains the origin (the surfedge '
-    'writer documents that it appends one otherwise)',
+    'exactly the concatenation of the slices that use them (a rebuild drops unused entries, so an all-unused array '
+    'would become empty); texdata records, edges and brush-model references are generated both in rebuild order and '
+    'NOT (unreferenced texdata/edges, out-of-first-use order, entities naming models in descending order) - there only '
+    'parsed content is demanded; edge 0 is the unusable dummy; the vertex table contains the origin (the surfedge '
+    'writer documents that it appends one otherwise); output delays are m x 10^e with m <= 99999, e in -9..9',
     'PAKFILE and GAME_LUMP are never LZMA-flagged (the writer documents that they cannot be); a compressed game lump '
     'is followed by one NUL byte (the reader derives compressed sizes from the next offset minus one)',
     'static prop flag words '
@@ -238,6 +240,22 @@ def classify_world(ctx, w: dict, lumps: dict, game: list) -> dict:
         ctx.label('lzma')
     if any(g['lzma'] for g in game):
         ctx.label('gl_lzma')
+    if w.get('lzma_all'):
+        ctx.label('lzma:all_lumps')
+    if w.get('messy'):
+        ctx.label('tables:non_canonical')
+        tds = [t[2] for t in w['texinfo']]
+        if len(set(tds)) < len(w['texdata']):
+            ctx.label('tables:unreferenced_texdata')
+        first = list(dict.fromkeys(tds))
+        if first != sorted(first):
+            ctx.label('tables:texdata_out_of_order')
+        used_edges = {abs(v) for v in w['surfedges']}
+        if len(used_edges) < len(w['edges']) - 1:
+            ctx.label('tables:unused_edges')
+        for nm_ in ('TEXINFO', 'SURFEDGES', 'ENTITIES'):
+            if lumps[G.LUMP_INDEX[nm_]]['lzma'] and lumps[G.LUMP_INDEX[nm_]]['data']:
+                ctx.label('tables:non_canonical+lzma')
     used = [s.get('lzma_opts') for i, s in lumps.items() if s['lzma'] and s['data'] and i != G.PAKFILE] + [
         g.get('lzma_opts') for g in game if g['lzma']]
     facts['lzma_nondefault'] = any(not G.lzma_is_default(o) for o in used)
@@ -318,6 +336,11 @@ def execute_synth(desc, ctx) -> None:
             if any(fr.name == 'decompress_lzma' for fr in traceback.extract_tb(exc.__traceback__)):
                 ctx.fail('lzma_input_rejected', f'a lump compressed with legal LZMA settings cannot be read: {exc!r} '
                                                 f'(lzma_opts={w.get("lzma_opts")}, prelude={prelude})', **facts)
+                return
+            if any(fr.filename.startswith(core.REPO_SRC) for fr in traceback.extract_tb(exc.__traceback__)):
+                # the generated file is legal by construction: a reader that cannot take it is a finding, not our bug
+                tb = ''.join(traceback.format_exception(type(exc), exc, exc.__traceback__)[-4:])
+                ctx.fail('input_rejected', f'the reader rejects a well-formed input: {exc!r}\n{tb}', exc_type=type(exc).__name__, **facts)
                 return
             raise HarnessError(f'generated input is rejected by the reader: {exc!r}\nworld={w!r}') from exc
         if not ok:
@@ -674,6 +697,8 @@ SUBCHECKS = [
     Sub('synth', execute_synth, strategy=strat_synth, quick=1000, thorough=24000, quick_shards=8, thorough_shards=16,
         floor=200, must_hit=_VIEW_LABELS + _LAYOUT_LABELS + (
             'history:same_object_look_save_look_save', 'history:fresh_object_per_cycle', 'history:same_path',
+            'lzma:all_lumps', 'tables:non_canonical', 'tables:unreferenced_texdata', 'tables:texdata_out_of_order',
+            'tables:unused_edges', 'tables:non_canonical+lzma',
             'lzma', 'lzma:nondefault', 'prelude:nondefault', 'gl_lzma', 'gl_dummy', 'gl_extra', 'has:faces', 'has:water', 'has:vis', 'has:overlays',
             'has:brushes', 'has:phys', 'dprp:type2', 'dprp:type3', 'access:repeat')),
     Sub('container', execute_synth, strategy=strat_container, quick=400, thorough=8000, quick_shards=4,
